@@ -67,7 +67,7 @@ class SimLock:
                 return True
             if not blocking:
                 return False
-            sch.lock_wait(k, sch.tids.get(self._owner))
+            sch.lock_wait(k, sch.tids.get(self._owner), self._reentrant)
 
     def release(self):
         if self._reentrant and self._count > 1:
@@ -347,6 +347,7 @@ class Scheduler:
         self.unblocked = 0       # times a thread blocked on something a parked thread held (recovery, see run())
         self.blocked = set()     # threads sitting in a real blocking call (never chosen as switch targets)
         self.nlockwaits = 0
+        self.deadlocks = []
         self.nops_done = 0
         self.trace: list = []
         self.errors: list = []
@@ -441,11 +442,20 @@ class Scheduler:
         self.sems[nxt].release()
         self.sems[k].acquire()
 
-    def lock_wait(self, k, owner):
+    def lock_wait(self, k, owner, reentrant=False):
         """Thread k wants a lock a parked thread holds: a scheduling point at which k *must* yield."""
         self.npoints += 1
         self.nlockwaits += 1
         others = [j for j in range(self.n) if j != k and not self.finished[j] and j not in self.blocked]
+        if owner is not None and self.finished[owner] and not others:
+            # held by a simulated thread that has run to completion, and nobody is left who could release it:
+            # this wait can never end (a lock leaked on some path)
+            self.deadlocks.append((k, owner, self.opidx[k]))
+            raise RuntimeError(f"vecsim: deadlock - lock still held by finished thread {owner}")
+        if owner is not None and self.finished[owner] and reentrant:
+            # a re-entrant lock can only be released by its owner, which is gone
+            self.deadlocks.append((k, owner, self.opidx[k]))
+            raise RuntimeError(f"vecsim: deadlock - re-entrant lock still held by finished thread {owner}")
         if not others:
             import time as _t
 
